@@ -4,6 +4,8 @@ This module provides request handler classes for processing Gemini requests
 and generating responses, including Titan upload handlers.
 """
 
+import os
+import secrets
 from abc import ABC, abstractmethod
 from pathlib import Path
 from typing import TYPE_CHECKING
@@ -376,10 +378,19 @@ class FileUploadHandler(UploadHandler):
                 meta="Invalid path",
             )
 
-        # 6. Save file
+        # 6. Save file: write to a temporary sibling and move it into place, so
+        # that a failed or partial write never damages an existing file
         try:
+            if target.is_dir():
+                raise IsADirectoryError(f"Is a directory: '{request.path}'")
             target.parent.mkdir(parents=True, exist_ok=True)
-            target.write_bytes(request.content)
+            tmp_path = target.parent / f".upload-{secrets.token_hex(8)}.tmp"
+            try:
+                tmp_path.write_bytes(request.content)
+                os.replace(tmp_path, target)
+            except BaseException:
+                tmp_path.unlink(missing_ok=True)
+                raise
 
             return GeminiResponse(
                 status=StatusCode.SUCCESS.value,
